@@ -329,15 +329,15 @@ def judge(case, obs, model):
     if model is not None:
         if "error" in model:
             issues.append(Issue("A", model))
-        elif json.loads(json.dumps(obs["real"])) != model:
+        elif json.loads(json.dumps(obs["real"], default=repr)) != model:
             issues.append(Issue("A", {"asyncstdlib": obs["real"], "model": model}))
     return issues
 
 
 def features(case, obs):
-    s = json.dumps(obs["real"])
+    s = json.dumps(obs["real"], default=repr)
     return ["adaptersfail:" + case["tool"]] + (["adaptersfail:failure-or-throw"] if ("thrown" in s or "raised" in s) else [])
 
 
 def nontrivial(case, obs):
-    return obs["real"] is not None and bool(json.dumps(obs["real"]).count("await"))
+    return obs["real"] is not None and bool(json.dumps(obs["real"], default=repr).count("await"))
